@@ -149,9 +149,12 @@ def step (d : D) (fs : List String) : D × String :=
         | _ => none
       let n := s.hub.next
       let ua := match rest with
-        | [u] => (hexToString u).getD ""
+        | u :: _ => (hexToString u).getD ""
         | _ => s!"ua{n}"
-      let r := Access.wsAdmit d.cfg s p codeV ua s!"10.9.8.{n % 250}"
+      let remote := match rest with
+        | [_, x] => (hexToString x).getD ""
+        | _ => s!"10.9.8.{n % 250}"
+      let r := Access.wsAdmit d.cfg s p codeV ua remote
       let d' := { d with s := r.1 }
       match r.2 with
       | .notFound => (d', "httperr 404")
